@@ -3,6 +3,7 @@ package exec
 import (
 	"bytes"
 	"fmt"
+	"net"
 	"net/url"
 	"path/filepath"
 	"reflect"
@@ -211,6 +212,10 @@ func init() {
 	reg("internal/stringslite.Cut", strings.Cut)
 	reg("internal/stringslite.TrimPrefix", strings.TrimPrefix)
 	reg("internal/stringslite.TrimSuffix", strings.TrimSuffix)
+	reg("(net.IP).String", func(ip net.IP) string { return ip.String() })
+	reg("net.ParseIP", func(s string) net.IP { return net.ParseIP(s) })
+	reg("(net.IP).To4", func(ip net.IP) net.IP { return ip.To4() })
+	reg("(net.IP).To16", func(ip net.IP) net.IP { return ip.To16() })
 	// strconv
 	reg("strconv.Atoi", strconv.Atoi)
 	reg("strconv.ParseInt", strconv.ParseInt)
